@@ -113,6 +113,8 @@ BOUNDS = {
 # ----------------------------------------------------------------------------------------------------------------------------------
 EXCLUDED = ("deg_axis", "arg_empty", "cum_empty", "minmax_empty_nd", "bincount_minlength_too_small")
 
+# (tri_empty_first_chunk, coarsen_empty_axis_nd, rechunk_balance_zero_median and negstep_slice_after_empty_chunk were repaired in /repo and are no longer listed)
+REPAIRED_REGIONS = {"tri_empty_first_chunk", "coarsen_empty_axis_nd", "rechunk_balance_zero_median", "negstep_slice_after_empty_chunk"}
 OPEN_REGIONS = {
     "swv_unit_window_empty_chunk":
         "sliding_window_view with a window of length 1 along an axis that has a zero-size chunk: the lazy array is declared (input chunks + a trailing "
@@ -125,28 +127,10 @@ OPEN_REGIONS = {
         "overlapping depth 1 is larger than your array 0.') although NumPy returns an empty result of shape e.g. (0, 1, 2): "
         "ensure_minimum_chunksize(d + 1, c) is called for every axis, also those with depth d = 0, and refuses an axis shorter than 1. Reproduce: "
         "da.lib.stride_tricks.sliding_window_view(da.from_array(np.zeros((0, 2)), chunks=((0,), (2,))), 2, axis=1)",
-    "tri_empty_first_chunk":
-        "da.tril / da.triu of an array whose FIRST chunk along one of the last two axes has size 0: building raises ZeroDivisionError. "
-        "dask.array.creation.tri passes chunks[0][0] / chunks[1][0] (the size of the first chunk of m) to arange(..., chunks=) as the uniform chunk "
-        "size. Reproduce: da.tril(da.from_array(np.ones((2, 2)), chunks=((2,), (0, 2))))",
-    "coarsen_empty_axis_nd":
-        "da.coarsen of an array of >= 2 dimensions along an axis of length 0: building raises ValueError('Empty tuples are not allowed in chunks'): "
-        "aligned_coarsen_chunks((0,), k) removes every zero-size chunk and returns (), which coarsen then hands to rechunk (the 1-d case happens to "
-        "pass). Reproduce: da.coarsen(np.sum, da.from_array(np.zeros((0, 2)), chunks=((0,), (2,))), {0: 2}, trim_excess=True)",
-    "rechunk_balance_zero_median":
-        "x.rechunk(chunks, balance=True) where the requested chunks of some axis have a median size < 1 (e.g. (0, 1), (0,) next to a non-trivial "
-        "axis): ZeroDivisionError('integer modulo by zero') in _balance_chunksizes -> _get_chunks(n, 0) (range(median_len - eps, ...) starts at 0). "
-        "Reproduce: da.from_array(np.arange(1), chunks=-1).rechunk(((0, 1),), balance=True)",
     "repeat_empty_chunk":
         "da.repeat(x, repeats >= 2, axis) when x has a zero-size chunk along that axis: AssertionError while building: repeat cuts x into slabs "
         "x[c_start:c_stop] per chunk and asserts that every slab has exactly one chunk, but slicing keeps the neighbouring zero-size chunk. "
         "Reproduce: da.repeat(da.from_array(np.arange(3), chunks=((0, 3),)), 2)",
-    "negstep_slice_after_empty_chunk":
-        "(a defect of SLICING, property C20, visible here only through x + x[::-1]) x[::-1] (any negative step) returns an EMPTY array, "
-        "self-consistently declared with shape (0,), when the element the slice starts at sits at the start of its chunk and that chunk is directly "
-        "preceded by a zero-size chunk (e.g. chunks (1, 0, 1), (2, 0, 1)): _slice_1d finds the first chunk with bisect_left(chunk_boundaries, start) + 1, "
-        "which stops at the first of several equal boundaries. da.flip / rot90 are affected too. Reproduce: "
-        "da.from_array(np.arange(2), chunks=((1, 0, 1),))[::-1].compute()  ->  array([], dtype=int64)   (NumPy: [1, 0])",
 }
 
 SKIP_OPEN = os.environ.get("VERIF_C25_SKIP_OPEN", "") == "1"
@@ -222,6 +206,8 @@ class Par:
 
     def open(self, name):
         """the stage is inside the OPEN region `name` (a defect of the unchanged tree found with this harness): the operation is still applied"""
+        if name in REPAIRED_REGIONS:
+            return          # repaired in /repo: an ordinary stage now
         if name not in OPEN_REGIONS:
             raise HarnessError(f"unknown open region {name}")
         self.opened.append(name)
